@@ -149,6 +149,14 @@ func C13(c *Ctx) {
 		nby = 2000
 	}
 	progs = append(progs, genr.Bystander(nby, c.Seed)...)
+	// range loops inside ordinary closures nested in generators (every range statement there is replaced by a
+	// hand-written iterator): all kinds x forms x mutations of the two closure body shapes
+	rg, _ := genr.Range(c.Seed+14, 0, c.Rep.QuarantinedFeatures())
+	for _, p := range rg {
+		if p.Has("range-body:closure") || p.Has("range-body:closure-var-update") {
+			progs = append(progs, p)
+		}
+	}
 	c.Rep.Rule = "PRNG bystander programs (3-6 closure wrappers `func(ps) R { return f(ps) }` over 28 callee kinds — local / package function variables, pointer / value / interface / embedded / field method values incl. nil at creation, call results, indexed and map callees, package functions, generic functions with inferred / explicit / partial instantiation, builtins, conversions, variadics, widening results, method expressions, defer — each created, then its dependency changed, then called), ordinary closures inside generator bodies (three-clause loops capturing their variable, labelled loops, switch initialisers, defer; method values / function variables called after a yield) compared with the reference coroutine, and bystander declarations (closures of the shape func(ps){return f(ps)} over mutable function variables, method values, builtins, conversions, generic/variadic callees, widening results; constants, initialisers, methods) co-located with a generator; the SOURCE package built natively is the reference, the generated package must produce the same result/effect trace and must build. distinct = program x tape."
 	RunE1(c, E1Spec{
 		Programs:             progs,
